@@ -62,8 +62,8 @@ class Block:
         self.txs = txs; self.prev = prev; self.version = version; self.time = time; self.bits = bits; self.nonce = nonce
         self.mroot = mroot if mroot is not None else (merkle([t.txid for t in txs]) if txs else b'\x00' * 32)
         self.header = header(version, prev, self.mroot, time, bits, nonce)
-        self.auxpow = auxpow
-        self.raw = self.header + auxpow + cs(len(txs), count_width) + b''.join(t.disk for t in txs)
+        self.auxpow = auxpow; self.count_bytes = cs(len(txs), count_width)
+        self.raw = self.header + auxpow + self.count_bytes + b''.join(t.disk for t in txs)
         self.hash = dsha(self.header)
 
 def auxpow_section(parent_coinbase, b1_hashes, b2_hashes, parent_header=None, block_hash=None, masks=(0, 0), widths=(None, None)):
